@@ -3,4 +3,5 @@ import Cgm.E2E.C07
 import Cgm.E2E.C07b
 import Cgm.E2E.C07g
 import Cgm.E2E.C07i
+import Cgm.E2E.C07j
 #audit_namespace Cg.E2E.C07
